@@ -103,6 +103,9 @@ Definition touched L s (o : op) : list addr :=
   | OFacCreatePair c _ _ _ _ _ _ _ => [c]
   | OFacAddNative c _ _ => [c]
   | OFacMigrate c _ => [c]
+  | OSendFrom _ sp ow target _ h => ow :: hook_touch L s target sp h
+  | OBurnFrom _ sp ow _ => [sp; ow]
+  | ODecreaseAllowance _ ow sp _ => [ow; sp]
   end.
 (* the designated receiver, when it is someone other than the caller / contract *)
 Definition pure_receiver (o : op) : option addr :=
@@ -110,6 +113,7 @@ Definition pure_receiver (o : op) : option addr :=
   | OProvide p c _ _ _ _ _ _ (Some r) => if (r =? p) || (r =? c) then None else Some r
   | OSwap p c _ _ _ _ _ (Some r) => if (r =? p) || (r =? c) then None else Some r
   | OSend _ sd tg _ (HSwap _ _ _ _ (Some r)) => if (r =? tg) || (r =? sd) then None else Some r
+  | OSendFrom _ sp ow tg _ (HSwap _ _ _ _ (Some r)) => if (r =? tg) || (r =? sp) || (r =? ow) then None else Some r
   | ORouterOps c _ ops _ (Some r) => if (r =? 1) || (r =? c) then None else Some r
   | _ => None
   end.
@@ -141,6 +145,7 @@ Definition mon_C07 : monitor := fun L s st s' =>
       match x, o with
       | AToken t, OMint t' _ _ n => if t =? t' then total L s' x =? total L s x + n else total L s' x =? total L s x
       | AToken t, OBurn t' _ n => if t =? t' then total L s' x + n =? total L s x else total L s' x =? total L s x
+      | AToken t, OBurnFrom t' _ _ n => if t =? t' then total L s' x + n =? total L s x else total L s' x =? total L s x
       | _, _ => total L s' x =? total L s x
       end) (setup_assets L) in
   (* every cw20's balances always add up to its supply *)
@@ -153,6 +158,8 @@ Definition mon_C07 : monitor := fun L s st s' =>
       | OProvide p' _ _ _ _ _ _ _ _ => (p' =? p) && (s_supply L s lp <? s_supply L s' lp)
       | OSend t _ tg _ HWithdraw => (t =? lp) && (tg =? p) && (s_supply L s' lp <? s_supply L s lp)
       | OBurn t _ _ => t =? lp
+      | OSendFrom t _ _ tg _ HWithdraw => (t =? lp) && (tg =? p) && (s_supply L s' lp <? s_supply L s lp)
+      | OBurnFrom t _ _ _ => t =? lp
       | _ => false
       end) (existing_pairs L s) in
   (frame && recv_ok && conserve && supplies && lp_ok, false).
@@ -183,7 +190,7 @@ Definition mon_C01 : monitor := fun L s st s' =>
     let res := map (fun p =>
       let '(r0, r1) := pair_reserves L s p in let '(r0', r1') := pair_reserves L s' p in
       let changed := negb ((r0 =? r0') && (r1 =? r1')) in
-      let is_swap_op := match hs_op st with OProvide _ _ _ _ _ _ _ _ _ => false | OSend _ _ _ _ HWithdraw => false | _ => true end in
+      let is_swap_op := match hs_op st with OProvide _ _ _ _ _ _ _ _ _ => false | OSend _ _ _ _ HWithdraw => false | OSendFrom _ _ _ _ _ HWithdraw => false | _ => true end in
       if negb (changed && is_swap_op) then (true, false) else
       let ok := (r0 * r1 <=? r0' * r1') && ((r0 =? 0) || negb (r0' =? 0)) && ((r1 =? 0) || negb (r1' =? 0)) in
       let c := s_pair L s p 10 in
@@ -217,6 +224,11 @@ Definition mon_C02 : monitor := fun L s st s' =>
    | OSend ta sd p n (HSwap offer amount _ _ to) =>
        if s_pair L s p 0 =? 1 then
          (n =? amount) && asset_eqb offer (AToken ta) && swap_settlement L s s' p sd [] offer amount to sd (hs_extras st)
+       else true
+   (* SendFrom: the owner pays, the hook's sender (the spender) is the default receiver *)
+   | OSendFrom ta sp _ p n (HSwap offer amount _ _ to) =>
+       if s_pair L s p 0 =? 1 then
+         (n =? amount) && asset_eqb offer (AToken ta) && swap_settlement L s s' p sp [] offer amount to sp (hs_extras st)
        else true
    | OPairReceive p c funds cs ca (HSwap offer amount _ _ to) =>
        (* a hook can only come from the named token contract, which never calls by itself *)
@@ -283,6 +295,10 @@ Definition mon_C14 : monitor := fun L s st s' =>
       from one of the pair's cw20 assets *)
    | OSend ta _ p _ HWithdraw => if mem_addr p (existing_pairs L s) then ta =? s_pair L s p 7 else true
    | OSend ta _ p _ (HSwap _ _ _ _ _) =>
+       if mem_addr p (existing_pairs L s)
+       then asset_eqb (s_pair_asset L s p 0) (AToken ta) || asset_eqb (s_pair_asset L s p 1) (AToken ta) else true
+   | OSendFrom ta _ _ p _ HWithdraw => if mem_addr p (existing_pairs L s) then ta =? s_pair L s p 7 else true
+   | OSendFrom ta _ _ p _ (HSwap _ _ _ _ _) =>
        if mem_addr p (existing_pairs L s)
        then asset_eqb (s_pair_asset L s p 0) (AToken ta) || asset_eqb (s_pair_asset L s p 1) (AToken ta) else true
    | ORouterOp c _ _ _ _ => c =? 1
